@@ -196,3 +196,151 @@ Print Assumptions C07_level0.
 Print Assumptions C07_code_perm.
 Print Assumptions C07_code_dup.
 Print Assumptions C07_code_complement.
+
+
+(* ================================================================ the specification is the node count of a BDD
+   that is actually constructed (Spec/BddBuild.v): Shannon expansion with variable n-1 at the root, [mk] with the
+   elimination rule and the sharing rule, low edges regular (complemented edges), ONE unique table threaded
+   through all the listed functions.  Proofs are in Proofs/BddBuildProofs.v. *)
+From V Require Import Spec.BddBuild Proofs.BddBuildProofs.
+
+(* ---------------------------------------------------------------- 1. semantics of the construction *)
+
+(* one root edge per listed function, denoting that function *)
+Theorem C07_build_semantics : forall n ts,
+  length (snd (shared_bdd n ts)) = length ts /\
+  forall i t e, nth_error ts i = Some t -> nth_error (snd (shared_bdd n ts)) i = Some e ->
+    forall m, m < 2 ^ N.of_nat n -> edge_fun e m = val t m.
+Proof. exact shared_bdd_semantics. Qed.
+
+(* whatever the unique table already contains *)
+Theorem C07_build_semantics_one : forall t n u m,
+  m < 2 ^ N.of_nat n -> edge_fun (snd (build t n 0 u)) m = val t m.
+Proof. exact build_semantics. Qed.
+
+(* ---------------------------------------------------------------- 2. reduced, ordered, complemented edges *)
+
+(* every node of the unique table: label below n, low edge regular, both children canonical with smaller
+   labels, the two edges differ *)
+Theorem C07_build_canonical : forall n ts b,
+  In b (fst (shared_bdd n ts)) ->
+  exists v lo hc hi, b = Node v false lo hc hi /\ (v < n)%nat /\
+                     canonb v lo = true /\ canonb v hi = true /\ (false, lo) <> (hc, hi).
+Proof. exact shared_bdd_canonical_b. Qed.
+
+Theorem C07_build_canonb : forall n ts, forallb (canonb n) (fst (shared_bdd n ts)) = true.
+Proof. exact shared_bdd_canonb. Qed.
+
+Theorem C07_build_roots_canonical : forall n ts e,
+  In e (snd (shared_bdd n ts)) -> canonb n (snd e) = true.
+Proof. exact shared_bdd_roots_canonb. Qed.
+
+(* ROBDD canonicity: canonical edges denote the same function iff they are the same edge *)
+Theorem C07_canonicity : forall k (e1 e2 : edge),
+  canonb k (snd e1) = true -> canonb k (snd e2) = true ->
+  ((forall m, m < 2 ^ N.of_nat k -> edge_fun e1 m = edge_fun e2 m) <-> e1 = e2).
+Proof. exact canonicity_b. Qed.
+
+(* the unique table: no duplicate entry, no two entries with the same function or with complementary
+   functions, every entry depends on its label variable, and exactly the nodes reachable from the roots *)
+Theorem C07_build_nodup : forall n ts, NoDup (fst (shared_bdd n ts)).
+Proof. exact shared_bdd_nodup. Qed.
+
+Theorem C07_build_unique : forall n ts b1 b2,
+  In b1 (fst (shared_bdd n ts)) -> In b2 (fst (shared_bdd n ts)) ->
+  (forall m, m < 2 ^ N.of_nat n -> bdd_fun b1 m = bdd_fun b2 m) -> b1 = b2.
+Proof. exact shared_bdd_unique. Qed.
+
+Theorem C07_build_no_complement : forall n ts b1 b2,
+  In b1 (fst (shared_bdd n ts)) -> In b2 (fst (shared_bdd n ts)) ->
+  ~ (forall m, m < 2 ^ N.of_nat n -> bdd_fun b1 m = negb (bdd_fun b2 m)).
+Proof. exact shared_bdd_no_complement. Qed.
+
+Theorem C07_build_depends : forall n ts v lc lo hc hi,
+  In (Node v lc lo hc hi) (fst (shared_bdd n ts)) -> depends v (bdd_fun (Node v lc lo hc hi)) = true.
+Proof. exact shared_bdd_depends. Qed.
+
+Theorem C07_build_reachable : forall n ts b,
+  In b (fst (shared_bdd n ts)) <-> exists e, In e (snd (shared_bdd n ts)) /\ In b (subnodes (snd e)).
+Proof. exact shared_bdd_reachable. Qed.
+
+(* the table is closed under children: every node can refer to its children by their position in the table *)
+Theorem C07_build_closed : forall n ts v lc lo hc hi,
+  In (Node v lc lo hc hi) (fst (shared_bdd n ts)) ->
+  (lo = Zero \/ In lo (fst (shared_bdd n ts))) /\ (hi = Zero \/ In hi (fst (shared_bdd n ts))).
+Proof. exact shared_bdd_closed. Qed.
+
+(* the nodes that are not counted: a canonical node has both edges to the terminal iff it denotes x_v *)
+Theorem C07_literal_node_meaning : forall k v lc lo hc hi,
+  canonb k (Node v lc lo hc hi) = true ->
+  is_literal_node (Node v lc lo hc hi) = is_literal v (bdd_fun (Node v lc lo hc hi)).
+Proof. exact literal_node_meaning. Qed.
+
+(* ---------------------------------------------------------------- 3. the count *)
+
+(* the number of non-literal nodes of the shared BDD is the specification (no hypothesis on the tables) *)
+Theorem C07_build_count : forall n ts, count_nonliteral (fst (shared_bdd n ts)) = bdd_nodes n ts.
+Proof. exact count_nonliteral_spec. Qed.
+
+(* per level: the non-literal nodes labelled x_l are as many as the distinct level-l sub-function numbers *)
+Theorem C07_build_level : forall n ts l, (l < n)%nat ->
+  length (filter (fun b => bvar b =? l)%nat
+                 (filter (fun b => negb (is_literal_node b)) (fst (shared_bdd n ts)))) = level_count n ts l.
+Proof. exact level_bijection. Qed.
+
+(* ---------------------------------------------------------------- 4. the code counts the nodes of that BDD *)
+
+Theorem C07_build_model : forall n ts,
+  Forall (wf n) ts -> table_complexity n (concat ts) = Ok (count_nonliteral (fst (shared_bdd n ts))).
+Proof. exact table_complexity_build. Qed.
+
+Theorem C07_build_api_D : forall l0 luts,
+  Forall (fun l => nv l = nv l0 /\ wf (nv l) (tbl l)) (l0 :: luts) ->
+  D_bdd_complexity (l0 :: luts) = Ok (bdd_size (nv l0) (map tbl (l0 :: luts))).
+Proof. exact D_bdd_complexity_build. Qed.
+
+Theorem C07_build_api_S : forall n luts,
+  Forall (fun l => wf n (tbl l)) luts -> S_bdd_complexity n luts = Ok (bdd_size n (map tbl luts)).
+Proof. exact S_bdd_complexity_build. Qed.
+
+(* majority, parity and complemented majority of 3 variables share one BDD: 6 nodes, one of them the literal
+   x_0; the complemented duplicate adds no node (its root is the complemented edge to the majority node);
+   the construction, the specification and the model of the code agree on 5 *)
+Example C07_build_nonvacuous :
+  Forall (wf 3) [[0xe8]; [0x96]; [0x17]] /\
+  length (fst (shared_bdd 3 [[0xe8]; [0x96]; [0x17]])) = 6%nat /\
+  count_nonliteral (fst (shared_bdd 3 [[0xe8]; [0x96]; [0x17]])) = 5%nat /\
+  bdd_nodes 3 [[0xe8]; [0x96]; [0x17]] = 5%nat /\
+  table_complexity 3 (concat [[0xe8]; [0x96]; [0x17]]) = Ok 5%nat /\
+  fst (shared_bdd 3 [[0xe8]; [0x96]; [0x17]]) = fst (shared_bdd 3 [[0xe8]; [0x96]]) /\
+  (exists b, snd (shared_bdd 3 [[0xe8]; [0x96]; [0x17]]) = [(false, b); (false, Node 2 false
+     (Node 1 false (Node 0 false Zero true Zero) true (Node 0 false Zero true Zero)) true
+     (Node 1 false (Node 0 false Zero true Zero) true (Node 0 false Zero true Zero))); (true, b)]).
+Proof.
+  split; [repeat constructor; apply Proofs.Wf.wfb_wf; vm_compute; reflexivity|].
+  split; [vm_compute; reflexivity|].
+  split; [vm_compute; reflexivity|].
+  split; [vm_compute; reflexivity|].
+  split; [vm_compute; reflexivity|].
+  split; [vm_compute; reflexivity|].
+  eexists. vm_compute. reflexivity.
+Qed.
+
+Print Assumptions C07_build_semantics.
+Print Assumptions C07_build_semantics_one.
+Print Assumptions C07_build_canonical.
+Print Assumptions C07_build_canonb.
+Print Assumptions C07_build_roots_canonical.
+Print Assumptions C07_canonicity.
+Print Assumptions C07_build_nodup.
+Print Assumptions C07_build_unique.
+Print Assumptions C07_build_no_complement.
+Print Assumptions C07_build_depends.
+Print Assumptions C07_build_reachable.
+Print Assumptions C07_build_closed.
+Print Assumptions C07_literal_node_meaning.
+Print Assumptions C07_build_count.
+Print Assumptions C07_build_level.
+Print Assumptions C07_build_model.
+Print Assumptions C07_build_api_D.
+Print Assumptions C07_build_api_S.
